@@ -75,7 +75,7 @@ def run(R):
         lp = [n for n in ast.walk(m.node) if isinstance(n, ast.For) and any(q.attr_call(c)[1] == hook for c in q.calls(n))][0]
         for n, c in kit.call_sites(m, lambda c: q.attr_call(c)[1] == hook and isinstance(q.attr_call(c)[0], ast.Name) and q.attr_call(c)[0].id != "self"):
             trys = [t for t in kit.enclosing_try_handlers(c) if any(t is sub for sub in ast.walk(lp))]
-            cov = [h for t in trys[:1] for h in t.handlers if kit.handler_covers(h, "Exception", hier)]
+            cov = [h for t in trys[:1] for h in t.handlers if kit.handler_covers(h, "BaseException", hier)]
             R.check(bool(cov), "C07.HOOK-ISOLATION", m.qualname, R.site(m, c),
                     "each ctx.%s() is guarded inside the loop: a failing hook does not leave the remaining contexts un-%sd" % (hook, hook),
                     "the first failing ctx.%s() stops the loop: the remaining contexts are not %sd but will still be %s later - a stale saved value "
